@@ -161,6 +161,10 @@ func parseHarness(id string, dir string) (*Harness, error) {
 				h.Consts = append(h.Consts, [3]string{fields[1], fields[2], fields[3]})
 			case "callsites":
 				h.CallSites = append(h.CallSites, fields[1:])
+			case "callsites-gap":
+				// like callsites, but an unlisted site only means the harness does
+				// not exercise it: the run is INCONCLUSIVE, not a violation
+				h.CallSites = append(h.CallSites, append([]string{"?gap"}, fields[1:]...))
 			case "stubdyn":
 				h.StubDyn = append(h.StubDyn, fields[1:])
 			case "opaque":
